@@ -158,6 +158,50 @@ def select(fn, env):
     return "return", None
 
 
+def reachable_returns(fn, env):
+    """Every `return` expression (None for a bare return / falling off the end, "raise" for a raise) some execution of fn
+    can reach for the inputs `env`: a test the inputs do not decide is followed both ways.  Straight-line locals are not
+    tracked: a name assigned on the way is unknown afterwards."""
+    out = []
+
+    def block(body, env):
+        """-> True when control can fall out of the end of the block"""
+        env = dict(env)
+        for st in body:
+            if isinstance(st, (ast.FunctionDef, ast.ClassDef, ast.Import, ast.ImportFrom)):
+                continue
+            if isinstance(st, ast.If):
+                try:
+                    tv = bool(value(st.test, env))
+                    if not block(st.body if tv else st.orelse, env):
+                        return False
+                except Unknown:
+                    a, b = block(st.body, env), block(st.orelse, env)
+                    for n in ast.walk(st):
+                        if isinstance(n, ast.Name) and isinstance(n.ctx, ast.Store):
+                            env.pop(n.id, None)
+                    if not (a or b):
+                        return False
+            elif isinstance(st, ast.Assign) and len(st.targets) == 1 and isinstance(st.targets[0], ast.Name):
+                try:
+                    env[st.targets[0].id] = value(st.value, env)
+                except Unknown:
+                    env.pop(st.targets[0].id, None)
+            elif isinstance(st, ast.Return):
+                out.append(st.value)
+                return False
+            elif isinstance(st, ast.Raise):
+                out.append("raise")
+                return False
+            elif isinstance(st, (ast.For, ast.While, ast.With, ast.Try)) and _decisive([st]):
+                raise AnalysisError("%s: result selected inside a loop/with/try block" % fn.name)
+        return True
+
+    if block(fn.body, env):
+        out.append(None)
+    return out
+
+
 def effects(body, env, what="block", pinned=()):
     """Abstract execution of a statement list for one assignment of its inputs: the list of effects it performs.
 
